@@ -4,7 +4,6 @@ package main
 
 import (
 	"fmt"
-	"go/ast"
 	"go/types"
 	"sort"
 	"strings"
@@ -302,11 +301,16 @@ func checkC19(res *Result) {
 			}
 			res.check(okAdd, "C19-R4", fname(fn), p.pos(goIns), "wg.Add(1) precedes each go statement in the same iteration", "missing or misplaced")
 			// closure
-			mc, _ := goIns.Call.Value.(*ssa.MakeClosure)
-			if mc == nil {
-				res.bad("C19-R4", fname(fn), p.pos(goIns), "the goroutine is a closure of BatchDeliver", "not a closure")
+			// the function started: a closure of BatchDeliver or a function/method of package pub
+			var cl *ssa.Function
+			if mc, _ := goIns.Call.Value.(*ssa.MakeClosure); mc != nil {
+				cl = mc.Fn.(*ssa.Function)
+			} else if sc := goIns.Call.StaticCallee(); sc != nil && sc.Pkg == fn.Pkg && sc.Blocks != nil {
+				cl = sc
+			}
+			if cl == nil {
+				res.bad("C19-R4", fname(fn), p.pos(goIns), "the goroutine body is a closure or a function of package pub", "started function cannot be resolved")
 			} else {
-				cl := mc.Fn.(*ssa.Function)
 				okDone := false
 				for _, b := range cl.Blocks {
 					for _, ins := range b.Instrs {
@@ -356,7 +360,18 @@ func checkC19(res *Result) {
 				}
 				res.ok("C19-R5", fname(cl), p.pos(cl), fmt.Sprintf("goroutine captures %d variables, scanned for writes", len(cl.FreeVars)))
 				// the recipient is passed as an argument, errors go to the channel
-				res.check(len(goIns.Call.Args) == 1, "C19-R5", fname(fn), p.pos(goIns), "the recipient is handed to the goroutine as an argument (not captured)", fmt.Sprintf("%d arguments", len(goIns.Call.Args)))
+				// writes through pointer parameters (a goroutine started as a method/function)
+				for _, b := range cl.Blocks {
+					for _, ins := range b.Instrs {
+						if u, ok := ins.(*ssa.Store); ok {
+							for _, c := range containers(u.Addr) {
+								if prm, isP := c.(*ssa.Parameter); isP && c != u.Addr {
+									res.bad("C19-R5", fname(cl), p.pos(u), "the goroutine does not write through its pointer parameters", "store into data reachable from parameter "+prm.Name()+", shared by all goroutines of the batch")
+								}
+							}
+						}
+					}
+				}
 				sends := 0
 				var deliver *ssa.Call
 				for _, b := range cl.Blocks {
@@ -372,7 +387,27 @@ func checkC19(res *Result) {
 				}
 				res.check(deliver != nil && sends == 1, "C19-R4", fname(cl), p.pos(cl), "each goroutine makes one delivery attempt and reports a failure on the channel", fmt.Sprintf("Deliver call found: %v, channel sends: %d", deliver != nil, sends))
 				if deliver != nil {
-					res.check(isParamNamed(deliver.Call.Args[3], "r") || len(cl.Params) == 1 && deliver.Call.Args[3] == ssa.Value(cl.Params[0]), "C19-R4", fname(cl), p.pos(deliver), "the attempt goes to the goroutine's own recipient", "different target")
+					// the target is a parameter of the goroutine body (not a captured loop variable) and the
+					// go statement passes the loop's element for it
+					tp, _ := unwrap(deliver.Call.Args[3]).(*ssa.Parameter)
+					okT := false
+					if tp != nil {
+						for i, prm := range cl.Params {
+							if prm != tp {
+								continue
+							}
+							// index of the actual argument: closures and plain functions take Args[i]
+							if i < len(goIns.Call.Args) {
+								a := unwrap(goIns.Call.Args[i])
+								if u, ok := a.(*ssa.UnOp); ok {
+									if ia, ok := u.X.(*ssa.IndexAddr); ok && isParamNamed(ia.X, "recipients") {
+										okT = true
+									}
+								}
+							}
+						}
+					}
+					res.check(okT, "C19-R4", fname(cl), p.pos(deliver), "the attempt goes to the goroutine's own recipient: a parameter that receives the loop's element (not a captured loop variable)", "target "+valueLabel(deliver.Call.Args[3]))
 				}
 			}
 			// channel capacity
@@ -466,60 +501,175 @@ func checkC19(res *Result) {
 	res.Trusted = []string{"go/types, go/ssa, go/cfg (x/tools v0.29.0)", "e2_facts.go, e3_lock.go, e4_flow.go"}
 }
 
-// checkTransportMutexes runs E3 with sync.Mutex as the lock and SignRequest as
-// the protected access.
+// checkTransportMutexes: must/may-held dataflow over SSA with sync.Mutex as the
+// lock, keyed by the transport field the mutex value is loaded from, and
+// SignRequest as the protected access. (SSA rather than the syntax-level E3:
+// the mutex and the signer may reach the call through locals or through the
+// parameters of an expanded helper; in SSA they are the same field loads.)
 func checkTransportMutexes(res *Result, p *Pub) {
-	info := p.Info
-	units := unitsOf(p.Fset, p.Pkg.Syntax, info)
-	isMutex := func(t types.Type) bool { return typeIs(t, "sync", "Mutex") }
-	spec := lockSpec{
-		lockHasError: false,
-		write:        func(string) bool { return false },
-		boolRead:     func(string) bool { return false },
-		classify: func(c *ast.CallExpr) (string, ast.Expr, string) {
-			sel, ok := c.Fun.(*ast.SelectorExpr)
-			if !ok {
-				return "", nil, ""
+	fieldOf := func(v ssa.Value) string {
+		v = unwrap(v)
+		switch x := v.(type) {
+		case *ssa.UnOp:
+			if fa, ok := x.X.(*ssa.FieldAddr); ok {
+				return fieldName(fa.X.Type(), fa.Field)
 			}
-			s := info.Selections[sel]
-			if s == nil || s.Kind() != types.MethodVal {
-				return "", nil, ""
-			}
-			if isMutex(s.Recv()) {
-				switch sel.Sel.Name {
-				case "Lock":
-					return "lock", sel.X, "Lock"
-				case "Unlock":
-					return "unlock", sel.X, "Unlock"
-				}
-			}
-			if sel.Sel.Name == "SignRequest" {
-				return "access", nil, "SignRequest on " + types.ExprString(sel.X)
-			}
-			return "", nil, ""
-		},
+		case *ssa.Field:
+			return fieldName(x.X.Type(), x.Field)
+		}
+		return "?" + valueLabel(v)
 	}
-	e := newLockEngine(p.Fset, info, units, spec)
-	e.computeMayLock()
+	type st struct{ must, may map[string]bool }
+	clone := func(a st) st {
+		b := st{map[string]bool{}, map[string]bool{}}
+		for k := range a.must {
+			b.must[k] = true
+		}
+		for k := range a.may {
+			b.may[k] = true
+		}
+		return b
+	}
 	nSign := 0
-	for _, u := range units {
-		if !strings.HasPrefix(u.Name, "HttpSigTransport.") || u.Lit != nil {
+	for _, f := range p.Funcs {
+		root := f
+		for root.Parent() != nil {
+			root = root.Parent()
+		}
+		if !strings.HasPrefix(fname(root), "HttpSigTransport.") {
 			continue
 		}
-		for _, rep := range e.analyse(u) {
-			for _, f := range rep.findings {
-				switch f.rule {
-				case "R5":
-					nSign++
-					// desc: "<method> called under lock {keys}" / "... without a lock ..."
-					signer := strings.TrimPrefix(f.key, "SignRequest on ")
-					want := signer + "Mu"
-					ok := f.verdict == OK && strings.Contains(f.desc, "{"+want+"}")
-					res.check(ok, "C19-R2", rep.unit.Name, relPos(p.Fset, f.pos), "SignRequest on "+signer+" happens while "+want+" is held", f.desc+" "+f.detail)
-				case "R3", "R4", "R2":
-					res.Add(Oblig{Rule: "C19-R2", Func: rep.unit.Name, Pos: relPos(p.Fset, f.pos), Desc: "mutex discipline: " + f.desc, Verdict: f.verdict, Detail: f.detail})
+		touches := false
+		for _, ci := range callsIn(f) {
+			sn := staticName(ci)
+			if sn == "(sync.Mutex).Lock" || sn == "(sync.Mutex).Unlock" || ci.Common().IsInvoke() && ci.Common().Method.Name() == "SignRequest" {
+				touches = true
+			}
+		}
+		if !touches {
+			continue
+		}
+		in := map[*ssa.BasicBlock]st{}
+		have := map[*ssa.BasicBlock]bool{}
+		in[f.Blocks[0]] = st{map[string]bool{}, map[string]bool{}}
+		have[f.Blocks[0]] = true
+		type finding struct {
+			pos  ssa.Instruction
+			desc string
+			ok   bool
+			det  string
+		}
+		var report func(final bool, b *ssa.BasicBlock, s st) st
+		found := map[string]finding{}
+		add := func(final bool, ins ssa.Instruction, desc string, ok bool, det string) {
+			if final {
+				found[p.pos(ins)+desc] = finding{ins, desc, ok, det}
+			}
+		}
+		report = func(final bool, b *ssa.BasicBlock, s st) st {
+			s = clone(s)
+			deferred := []string{}
+			_ = deferred
+			for _, ins := range b.Instrs {
+				switch x := ins.(type) {
+				case *ssa.Defer:
+					if staticName(x) == "(sync.Mutex).Unlock" {
+						s.may["defer:"+fieldOf(x.Call.Args[0])] = true
+						s.must["defer:"+fieldOf(x.Call.Args[0])] = true
+					}
+				case *ssa.RunDefers:
+					for k := range s.may {
+						if strings.HasPrefix(k, "defer:") {
+							n := strings.TrimPrefix(k, "defer:")
+							if s.must[k] {
+								delete(s.must, n)
+								delete(s.may, n)
+							}
+						}
+					}
+				case *ssa.Call:
+					switch {
+					case staticName(x) == "(sync.Mutex).Lock":
+						n := fieldOf(x.Call.Args[0])
+						add(final, x, "mutex "+n+" is not locked again while it may be held", !s.may[n], "Lock while held: self-deadlock")
+						s.must[n], s.may[n] = true, true
+					case staticName(x) == "(sync.Mutex).Unlock":
+						n := fieldOf(x.Call.Args[0])
+						add(final, x, "mutex "+n+" is held where it is unlocked", s.must[n], "Unlock of a mutex that is not held on every path here")
+						delete(s.must, n)
+						delete(s.may, n)
+					case x.Common().IsInvoke() && x.Common().Method.Name() == "SignRequest":
+						signer := fieldOf(x.Common().Value)
+						want := signer + "Mu"
+						var held []string
+						for k := range s.must {
+							if !strings.HasPrefix(k, "defer:") {
+								held = append(held, k)
+							}
+						}
+						sort.Strings(held)
+						add(final, x, "SignRequest on "+signer+" happens while "+want+" is held", s.must[want], "held on every path here: {"+strings.Join(held, ",")+"}")
+					}
+				case *ssa.Return:
+					var left []string
+					for k := range s.may {
+						if !strings.HasPrefix(k, "defer:") {
+							left = append(left, k)
+						}
+					}
+					sort.Strings(left)
+					add(final, x, "every signer mutex is released at this return", len(left) == 0, "may still be held: {"+strings.Join(left, ",")+"}")
 				}
 			}
+			return s
+		}
+		work := []*ssa.BasicBlock{f.Blocks[0]}
+		for len(work) > 0 {
+			b := work[0]
+			work = work[1:]
+			out := report(false, b, in[b])
+			for _, sc := range b.Succs {
+				if !have[sc] {
+					have[sc] = true
+					in[sc] = clone(out)
+					work = append(work, sc)
+					continue
+				}
+				cur := in[sc]
+				changed := false
+				for k := range cur.must {
+					if !out.must[k] {
+						delete(cur.must, k)
+						changed = true
+					}
+				}
+				for k := range out.may {
+					if !cur.may[k] {
+						cur.may[k] = true
+						changed = true
+					}
+				}
+				if changed {
+					work = append(work, sc)
+				}
+			}
+		}
+		for _, b := range f.Blocks {
+			if have[b] {
+				report(true, b, in[b])
+			}
+		}
+		var keys []string
+		for k := range found {
+			keys = append(keys, k)
+		}
+		sort.Strings(keys)
+		for _, k := range keys {
+			fd := found[k]
+			if strings.HasPrefix(fd.desc, "SignRequest on ") {
+				nSign++
+			}
+			res.check(fd.ok, "C19-R2", fname(f), p.pos(fd.pos), fd.desc, fd.det)
 		}
 	}
 	res.check(nSign >= 2, "C19-R2", "HttpSigTransport", "-", "both signers' uses were examined", fmt.Sprintf("%d SignRequest sites", nSign))
